@@ -679,7 +679,12 @@ func (check *Checker) shift(x, y *operand, e *ast.BinaryExpr, op token.Token) {
 		// (Either it was of an integer type already, or it was
 		// untyped and successfully converted to a uint above.)
 		yval = constant.ToInt(y.val)
-		assert(yval.Kind() == constant.Int)
+		if yval.Kind() != constant.Int {
+			// the count is a malformed literal (e.g. "6e", "0x"): its value is unknown
+			// and the syntax error has been reported already
+			x.mode = invalid
+			return
+		}
 		if constant.Sign(yval) < 0 {
 			check.invalidOp(y.pos(), "negative shift count %s", y)
 			x.mode = invalid
